@@ -99,6 +99,9 @@ def _main(args):
             props = AREA[prop[1:]]
         else:
             props = ALL if (all_checks or prop is None) else RELATED.get(prop, [prop])
+        if previous:
+            recorded = json.load(open(os.path.join(VERIF, "seeded", "MATRIX.json"))).get(name, {})
+            props = sorted(p for p, v in recorded.items() if isinstance(v, dict) and v.get("rc") == 1) or props
         work.append((name, os.path.abspath(patch), props, t))
     # VF_MATRIX_FILE: write somewhere else (and leave the meta.json files alone) - used for runs at other seeds
     matrix_path = os.environ.get("VF_MATRIX_FILE") or os.path.join(VERIF, "seeded", "MATRIX.json")
